@@ -81,6 +81,95 @@ def requestDecoder (S : Schema) (fuel : Nat) (bs : Bytes) : Outcome (Nat × Opti
   | .err x => .err x
   | .panic p => .panic p
 
+/-! ### hand-written request builders of liteclient/client.go: `WaitMasterchainSeqno`, `WaitMasterchainBlock` -/
+
+/-- `liteServer.waitMasterchainSeqno#baeab892 seqno:int timeout_ms:int = Object; // query prefix` — present in
+lite_api.tl only as a COMMENT (line 114: the repository's TL parser has no prefix queries); client.go spells the id as
+`magicLiteServerWaitMasterchainSeqno` -/
+def waitSeqnoDecl : Decl :=
+  { ctor := "liteServer.waitMasterchainSeqno", id := 0xbaeab892,
+    fields := [{ name := "seqno", cond := none, ty := .int }, { name := "timeout_ms", cond := none, ty := .int }],
+    result := "Object" }
+
+def waitSchema : Schema := { types := [waitSeqnoDecl], funcs := [] }
+
+/-- the query prefix: the boxed encoding of `liteServer.waitMasterchainSeqno(seqno, timeout)` under its declaration -/
+def waitPrefix (seqno timeout : Nat) : Option Bytes :=
+  encode waitSchema (.boxed "Object") (.sum "liteServer.waitMasterchainSeqno" [.num seqno, .num timeout])
+
+/-- `(*Client).WaitMasterchainSeqno`: the prefix ALONE is the request -/
+def waitSeqnoRequest (seqno timeout : Nat) : Option Bytes := waitPrefix seqno timeout
+
+/-- the parameters `WaitMasterchainBlock` passes to `liteServer.lookupBlock`: mode 1, masterchain (-1 as `int`), the
+whole shard, the awaited seqno; no lt, no utime -/
+def waitBlockParams (seqno : Nat) : List Val :=
+  [.num 1, .tuple [.num 0xffffffff, .num 0x8000000000000000, .num seqno], .absent, .absent]
+
+/-- a value with holes for the awaited seqno (the shape of a struct literal that mentions the parameter `seqno`) -/
+inductive TV where
+  | lit (v : Val)
+  | seqno
+  | tuple (l : List TV)
+  deriving Repr, Inhabited
+
+mutual
+def TV.inst (q : Nat) : TV → Val
+  | .lit v => v
+  | .seqno => .num q
+  | .tuple l => .tuple (TV.instL q l)
+def TV.instL (q : Nat) : List TV → List Val
+  | [] => []
+  | t :: ts => TV.inst q t :: TV.instL q ts
+end
+
+/-- equality of the literals that occur in such struct literals -/
+def litEq : Val → Val → Bool
+  | .num a, .num b => a == b
+  | .absent, .absent => true
+  | _, _ => false
+
+mutual
+def TV.beq : TV → TV → Bool
+  | .lit a, .lit b => litEq a b
+  | .seqno, .seqno => true
+  | .tuple a, .tuple b => TV.beqL a b
+  | _, _ => false
+def TV.beqL : List TV → List TV → Bool
+  | [], [] => true
+  | a :: as, b :: bs => TV.beq a b && TV.beqL as bs
+  | _, _ => false
+end
+
+/-- `waitBlockParams` as a template -/
+def waitBlockParamsT : List TV :=
+  [.lit (.num 1), .tuple [.lit (.num 0xffffffff), .lit (.num 0x8000000000000000), .seqno], .lit .absent, .lit .absent]
+
+/-- `(*Client).WaitMasterchainBlock`: the prefix, then the request `liteServer.lookupBlock` of the schema -/
+def waitBlockRequest (S : Schema) (seqno timeout : Nat) : Option Bytes :=
+  match waitPrefix seqno timeout, encodeRequest S "liteServer.lookupBlock" (waitBlockParams seqno) with
+  | some p, some r => some (p ++ r)
+  | _, _ => none
+
+/-- what `WaitMasterchainSeqno` makes of the answer: only a `liteServer.error` is accepted; code 0 means "done"
+(`none`), any other code is returned as that error -/
+def waitSeqnoAnswer (S : Schema) (fuel : Nat) (resp : Bytes) : Outcome (Option (List Val)) :=
+  match S.ctor? errorCtor with
+  | some e =>
+    match readLE 4 resp with
+    | .ok (tag, r) =>
+      if tag = e.id then
+        match decodeFields S fuel e.fields [] r with
+        | .ok (vs, _) =>
+          match vs with
+          | .num 0 :: _ => .ok none
+          | _ => .ok (some vs)
+        | .err x => .err x
+        | .panic p => .panic p
+      else .err "invalid tag"
+    | .err x => .err x
+    | .panic p => .panic p
+  | none => .err "undeclared"
+
 /-! ### hand-written codecs (ton/account.go, ton/block.go, tl/basic_types.go) -/
 
 /-- `ton.AccountID.MarshalTL`: 4 bytes workchain (two's complement, little-endian) + 32 bytes address -/
